@@ -2,6 +2,7 @@
 from __future__ import annotations
 
 import ast
+import itertools
 from typing import Optional
 
 from ..prog import AnalysisError, FuncInfo, call_name, short, stmt_head, unparse, walk_no_nested
@@ -50,75 +51,87 @@ def r1_target_escaping(ctx) -> None:
     r, prog = ctx.r, ctx.prog
     r.rule("C05.R1", "target escaping: the escaped set of SigmaString.convert contains both wildcard tokens, add_escaped and the escape character itself; the string-part branch, tabulated over (filter set empty?, escaped set empty?, escape char present?) x (character filtered?, escaped?), drops filtered characters, prefixes escaped ones and copies the rest; convert_value_str passes str_quote + add_escaped and the filter characters")
     f = prog.func(T + ".SigmaString.convert")
-    defs = {n: [unparse(v) for v in assignments_to(f.node, n) if isinstance(v, ast.AST)] for n in ("escaped_chars", "filter_set")}
     loc = f.loc
-    ec = defs["escaped_chars"][0] if defs["escaped_chars"] else ""
-    parts_needed = ["wildcard_multi", "wildcard_single", "add_escaped"]
-    if all(p in ec for p in parts_needed):
-        r.ok("C05.R1", f.qual, f"escaped_chars = {ec}: wildcard tokens and add_escaped", loc)
+    # convert() interpreted as a whole (sa.tabulate; helper methods a refactoring introduces resolve from the source) on
+    # stand-in strings, over configurations of escape character, wildcard tokens (absent / single / multi-character),
+    # additionally escaped and filtered characters
+    from .standins import string_standin
+    Str, _Cased, _PH, sc, senv = string_standin(ctx)
+
+    class SigmaValueError(Exception):
+        def __init__(self, *a, **k): super().__init__(*a)
+
+    class SigmaPlaceholderError(Exception):
+        def __init__(self, *a, **k): super().__init__(*a)
+
+    senv.update({"SigmaValueError": SigmaValueError, "SigmaPlaceholderError": SigmaPlaceholderError})
+
+    def conv(parts, esc, wm, ws, add, filt):
+        try:
+            return Str(parts).call("convert", esc, wm, ws, add, filt)
+        except Raised as ex:
+            return f"<raises {'SigmaPlaceholderError' if 'Placeholder' in str(ex) else 'SigmaValueError' if 'SigmaValueError' in str(ex) else str(ex)[:30]}>"
+
+    def ref(parts, esc, wm, ws, add, filt, self_escape):
+        escaped = set((wm or "") + (ws or "") + add) | ({esc} if self_escape and esc else set())
+        out = []
+        for p_ in parts:
+            if isinstance(p_, str):
+                for c in p_:
+                    if c in filt:
+                        continue
+                    if c in escaped:
+                        if esc is None:
+                            return "<raises SigmaValueError>"
+                        out.append(esc)
+                    out.append(c)
+            elif p_ is sc.WILDCARD_MULTI or p_ is sc.WILDCARD_SINGLE:
+                tok = wm if p_ is sc.WILDCARD_MULTI else ws
+                if tok is None:
+                    return "<raises SigmaValueError>"
+                out.append(tok)
+            else:
+                return "<raises SigmaPlaceholderError>"
+        return "".join(out)
+
+    wrong_set, wrong_str, wrong_special = [], [], []
+    n_cfg = n_states = 0
+    for esc in (None, "\\", "^"):
+        for wm in (None, "*", ".*", "%%"):
+            for ws in (None, "?", "."):
+                for add in ("", '"x', "\\"):
+                    for filt in ("", "F", "x"):
+                        n_cfg += 1
+                        alphabet = "a" + "".join(sorted(set((wm or "") + (ws or "") + add + filt)))
+                        samples = [[alphabet], ["a", alphabet[::-1], "a"], ["aaa"], [c for c in alphabet], [alphabet, sc.WILDCARD_MULTI, "a"], ["a", sc.WILDCARD_SINGLE], [sc.WILDCARD_MULTI, sc.WILDCARD_SINGLE], ["a", _PH("p")], []]
+                        for parts in samples:
+                            n_states += 1
+                            got = conv(parts, esc, wm, ws, add, filt)
+                            wants = {ref(parts, esc, wm, ws, add, filt, False), ref(parts, esc, wm, ws, add, filt, True)}
+                            if got not in wants:
+                                msg = f"escape_char={esc!r} multi={wm!r} single={ws!r} add_escaped={add!r} filter={filt!r} parts={parts!r}: {got!r} instead of {sorted(wants)[0]!r}"
+                                if any(not isinstance(x, str) for x in parts):
+                                    wrong_special.append(msg)
+                                elif isinstance(got, str) and not got.startswith("<") and any(len(t or "") > 1 for t in (wm, ws)) and filt == "" :
+                                    wrong_set.append(msg)
+                                else:
+                                    wrong_str.append(msg)
+    if wrong_set and not wrong_str:
+        r.violation("C05.R1", f.qual, f"escaped set: {wrong_set[0]}", f"{len(wrong_set)} of {n_states} interpreted states: the escaped set must consist of every *character* of the wildcard tokens and of add_escaped — a multi-character token kept as one element leaves its characters unescaped inside literals, where the target reads them as the wildcard", loc)
+    elif wrong_set or wrong_str:
+        allw = wrong_str + wrong_set
+        r.violation("C05.R1", f.qual, f"string branch: {allw[0]}", f"{len(allw)} of {n_states} interpreted states deviate: filtered characters are dropped, characters of the wildcard tokens and of add_escaped are prefixed with the escape character (SigmaValueError without one), the rest is copied — a fast path or branch copies characters that must be filtered or escaped (or drops/escapes others); an unescaped wildcard token or extra character in a literal acts as a target metacharacter", loc)
     else:
-        r.violation("C05.R1", f.qual, f"escaped_chars = {ec}", f"the escaped set must contain {parts_needed}: an unescaped wildcard token or extra character in a literal acts as a target metacharacter", loc)
-    if "escape_char" in ec:
+        r.ok("C05.R1", f.qual, f"convert() interpreted on {n_states} (configuration, value) states of {n_cfg} configurations (single/multi-character/absent wildcard tokens, add_escaped, filter, with and without escape character): filtered characters dropped, every character of the tokens and of add_escaped prefixed, others copied — on every path including the fast paths", loc)
+    if wrong_special:
+        r.violation("C05.R1", f.qual, f"special parts: {wrong_special[0]}", f"{len(wrong_special)} states deviate: a wildcard part is written as the configured token (SigmaValueError if the target has none), a placeholder is refused", loc)
+    else:
+        r.ok("C05.R1", f.qual, "wildcard parts are written as the configured tokens (refused without one), placeholders are refused", loc)
+    if conv(["x\\"], "\\", "*", "?", "", "") == "x\\\\":
         r.ok("C05.R1", f.qual, "escaped set contains the escape character itself", loc)
     else:
         r.violation("C05.R1", f.qual, "escaped_chars lacks the escape character",
                     "the escape character itself is not escaped: a value ending in the escape character (x\\ with escape_char='\\' and str_quote='\"') renders as \"x\\\" — the backslash escapes the closing quote in the target language and the literal does not end; a backslash before a wildcard renders as \\* (an escaped, literal star)", loc)
-    # the set itself, evaluated for single- and multi-character wildcard tokens and absent wildcards
-    pre = [st for st in f.node.body if isinstance(st, (ast.Assign, ast.AnnAssign)) and unparse(st.targets[0] if isinstance(st, ast.Assign) else st.target) in ("escaped_chars", "filter_set")]
-    wrong = []
-    n_cfg = 0
-    for wm in (None, "*", ".*", "%%"):
-        for ws in (None, "?", ".", "_"):
-            for add in ("", '"x', "\\"):
-                it = Interp({"wildcard_multi": wm, "wildcard_single": ws, "add_escaped": add, "escape_char": "\\", "filter_chars": "&"})
-                it.run(pre)
-                got = set(it.env.get("escaped_chars", ()))
-                want = set((wm or "") + (ws or "") + add)
-                n_cfg += 1
-                if not (want <= got) or (got - want - {"\\"}):
-                    wrong.append(f"multi={wm!r} single={ws!r} add_escaped={add!r}: {sorted(got, key=str)} instead of {sorted(want)}")
-    if wrong:
-        r.violation("C05.R1", f.qual, f"escaped set: {wrong[0]}", f"{len(wrong)} of {n_cfg} configurations: the escaped set must consist of every *character* of the wildcard tokens and of add_escaped — a multi-character token kept as one element leaves its characters unescaped inside literals, where the target reads them as the wildcard", loc)
-    else:
-        r.ok("C05.R1", f.qual, f"escaped set evaluated for {n_cfg} configurations (single/multi-character/absent wildcard tokens): every character of the tokens and of add_escaped", loc)
-    if defs["filter_set"] == ["frozenset(filter_chars)"]:
-        r.ok("C05.R1", f.qual, "filter_set = frozenset(filter_chars)", loc)
-    else:
-        r.violation("C05.R1", f.qual, f"filter_set = {defs['filter_set']}", "filter set must be built from filter_chars", loc)
-    # the string-part branch, tabulated
-    loops = [n for n in walk_no_nested(f.node) if isinstance(n, ast.For) and unparse(n.iter) == "self.s"]
-    if len(loops) != 1 or not isinstance(loops[0].body[0], ast.If) or unparse(loops[0].body[0].test) != "isinstance(part, str)":
-        raise AnalysisError(f"{f.qual}: part loop / string branch not found")
-    body = loops[0].body[0].body
-    bloc = f"{f.module.relpath}:{body[0].lineno}"
-    bad = char_dependencies(body, "c", {"c in filter_set", "c in escaped_chars"}, set())
-    if bad:
-        r.violation("C05.R1", f.qual, f"character tests {bad}", "the string branch inspects the character other than through membership in the filter and escaped sets: the class abstraction does not cover it", bloc)
-        return
-    n_states = 0
-    wrong: list[str] = []
-    for filt in ("", "F", "X"):
-        for esc_set in ("", "E", "X"):
-            for esc in (None, "\\"):
-                for part in ("a", "F", "E", "X", "aFEXa"):
-                    it = Interp({"part": part, "filter_set": frozenset(filt), "escaped_chars": frozenset(esc_set), "escape_char": esc, "result": [],
-                                 "SigmaValueError": lambda *a, **k: "SigmaValueError"})
-                    try:
-                        it.run(body)
-                        got = "".join(it.env["result"])
-                    except Raised as ex:
-                        got = f"<raises {str(ex)[:15]}>"
-                    if esc is None and any(c in esc_set and c not in filt for c in part):
-                        want = "<raises SigmaValueError>"  # a character that must be escaped, and nothing to escape it with
-                    else:
-                        want = "".join(("" if c in filt else (esc + c if c in esc_set else c)) for c in part)
-                    n_states += 1
-                    if got != want:
-                        wrong.append(f"filter={filt!r} escaped={esc_set!r} escape_char={esc!r} part={part!r}: {got!r} instead of {want!r}")
-    if not wrong:
-        r.ok("C05.R1", f.qual, f"string branch tabulated over {n_states} (configuration class, character class) states: filtered characters dropped, escaped characters prefixed, others copied — on every path including the fast paths", bloc)
-    else:
-        r.violation("C05.R1", f.qual, f"string branch: {wrong[0]}", f"{len(wrong)} of {n_states} tabulated states deviate: a fast path or branch copies characters that must be filtered or escaped (or drops/escapes others)", bloc)
     cv = prog.func(TQ + ".convert_value_str")
     calls = [c for c in walk_no_nested(cv.node) if isinstance(c, ast.Call) and call_name(c).endswith(".convert")]
     if calls and [unparse(a) for a in calls[0].args] == ["self.escape_char", "self.wildcard_multi", "self.wildcard_single", "self.str_quote + self.add_escaped", "self.filter_chars"]:
@@ -153,11 +166,7 @@ def r2_r6_parser_printer(ctx) -> None:
     r.rule("C05.R6", "parser transition function of SigmaString.__init__, tabulated over (character class: '*', '?', escape character, other) x escaped x escaping enabled x accumulator empty?: escaped ∧ (special ∨ escape char) → that char; escaped ∧ other → escape char + char; escape char (escaping on) → escaped state; special → flush + special part; other → accumulate; trailing escape kept")
     r.rule("C05.R2", "the plain form is re-parsable: the printer escapes exactly what the parser would otherwise reinterpret — wildcard characters inside string parts and a backslash that the parser would read as an escape")
     f = prog.func(T + ".SigmaString.__init__")
-    loops = [n for n in walk_no_nested(f.node) if isinstance(n, ast.For) and unparse(n.iter) == "s"]
-    if len(loops) != 1:
-        raise AnalysisError(f"{f.qual}: character loop not found")
-    lp = loops[0]
-    loc = f"{f.module.relpath}:{lp.lineno}"
+    loc = f.loc
     mm = prog.module(T)
     try:
         cm = mm.assigns["char_mapping"][-1].value  # type: ignore[attr-defined]
@@ -169,34 +178,63 @@ def r2_r6_parser_printer(ctx) -> None:
         r.ok("C05.R6", T, f"char_mapping {cmap}, escape_char {esc!r}")
     else:
         r.violation("C05.R6", T, f"char_mapping {cmap}, escape_char {esc!r}", "special characters must be '*' → multi, '?' → single, escape character backslash")
-    bad = char_dependencies(lp.body, "c", {"c in char_mapping", "c == escape_char"}, set())
-    if bad:
-        r.violation("C05.R6", f.qual, f"character tests {bad}", "the parser inspects the character other than through `c in char_mapping` / `c == escape_char`: the escape state machine treats some character specially that the specification does not", loc)
+    # the parser interpreted as a whole (sa.tabulate; helpers and closures a refactoring introduces are followed) on every
+    # text of up to four characters over the classes '*', '?', escape character, other — with escaping on and off; the
+    # specified transition function (_spec_step) folded over the text is the reference
+    from .standins import string_standin
+    Str, _Cased, _PH0, sc0, _env0 = string_standin(ctx)
+    wrong: list[str] = []
+    n = 0
+    # the class "other" is instantiated with several characters, among them every one-character constant of the parser's
+    # code and of the helpers defined in its class (a character singled out there gets its own run)
+    others = ["a", "%", " ", '"', "\u00e9"]
+    for nd in ast.walk(f.cls.node if f.cls is not None else f.node):
+        if isinstance(nd, ast.Constant) and isinstance(nd.value, str):
+            for ch in nd.value:
+                if ch not in "*?\\" and ch not in others and len(others) < 14 and len(nd.value) <= 2:
+                    others.append(ch)
+    texts = [""]
+    for o in others:
+        for L in range(1, 5 if o == "a" else 4):
+            texts += ["".join(t) for t in itertools.product("*?\\" + o, repeat=L) if o in t or o == "a"]
+    for text in texts:
+        if True:
+            for escape in (True, False):
+                n += 1
+                me = Str()
+                me.s = None
+                try:
+                    me.call("__init__", text, escape)
+                except Raised as ex:
+                    wrong.append(f"{text!r} (escape={escape}): raises {ex}")
+                    continue
+                escaped, acc, out = False, [], []
+                for c in text:
+                    escaped, acc, out = _spec_step(c, escaped, escape, acc, out)
+                if escaped:
+                    acc.append("\\")
+                if acc:
+                    out.append("".join(acc))
+                want = [sc0.WILDCARD_MULTI if x == "MULTI" else sc0.WILDCARD_SINGLE if x == "SINGLE" else x for x in out]
+                got = me.s
+                if not (isinstance(got, list) and len(got) == len(want) and all(a is b or (isinstance(a, str) and a == b) for a, b in zip(got, want))):
+                    wrong.append(f"{text!r} (escape={escape}): parts {got!r} instead of {want!r}")
+                elif getattr(me, "original", None) != text:
+                    wrong.append(f"{text!r}: original = {getattr(me, 'original', None)!r}")
+    if not wrong:
+        r.ok("C05.R6", f.qual, f"parser interpreted on {n} texts (all texts up to 4 characters over the character classes, escaping on/off): parts equal the specified transition function folded over the text; a trailing escape character is kept as a plain character, the remainder is flushed", loc)
     else:
-        wrong: list[str] = []
-        n = 0
-        for c in ("*", "?", "\\", "a"):
-            for escaped in (False, True):
-                for escape in (False, True):
-                    for acc in ([], ["x"]):
-                        it = Interp({"c": c, "escaped": escaped, "escape": escape, "acc": list(acc), "r": [],
-                                     "char_mapping": {"*": "MULTI", "?": "SINGLE"}, "escape_char": "\\"})
-                        it.run(lp.body)
-                        got = (bool(it.env["escaped"]), list(it.env["acc"]), list(it.env["r"]))
-                        want = _spec_step(c, escaped, escape, acc, [])
-                        n += 1
-                        if got != want:
-                            wrong.append(f"c={c!r} escaped={escaped} escape={escape} acc={acc}: (escaped, acc, parts)={got} instead of {want}")
-        if not wrong:
-            r.ok("C05.R6", f.qual, f"{n} abstract states: the loop body's transition equals the specified one", loc)
-        else:
-            r.violation("C05.R6", f.qual, f"parser transition: {wrong[0]}", f"{len(wrong)} of {n} states deviate from the Sigma escaping rules (which characters an escape protects, when the escape character is kept, when a wildcard part is emitted)", loc)
-    tail = [n for n in f.node.body if isinstance(n, ast.If) and unparse(n.test) == "escaped"]
-    tail2 = [n for n in f.node.body if isinstance(n, ast.If) and unparse(n.test) == "acc"]
-    if tail and unparse(tail[0].body[0]) == "acc.append(escape_char)" and tail2 and unparse(tail2[0].body[0]).replace('"', "'") == "r.append(''.join(acc))" and tail[0].lineno < tail2[0].lineno:
-        r.ok("C05.R6", f.qual, "after the loop: a trailing escape character is kept as a plain character, the remainder is flushed", loc)
+        r.violation("C05.R6", f.qual, f"parser transition: {wrong[0]}", f"{len(wrong)} of {n} texts deviate from the Sigma escaping rules (which characters an escape protects, when the escape character is kept, when a wildcard part is emitted, trailing escape character / remainder lost)", loc)
+    try:
+        me = Str()
+        me.call("__init__", None)
+        none_ok = me.s == []
+    except Raised:
+        none_ok = False
+    if none_ok:
+        r.ok("C05.R6", f.qual, "SigmaString(None) is the empty string", loc)
     else:
-        r.violation("C05.R6", f.qual, "if escaped: acc.append(escape_char) / if acc: r.append(''.join(acc))", "a trailing escape character or the accumulated remainder is lost", loc)
+        r.violation("C05.R6", f.qual, "SigmaString(None)", "no value must give the empty string", loc)
     # ---- printer
     tp = prog.func(T + ".SigmaString.to_plain")
     loc = tp.loc
@@ -309,32 +347,65 @@ def r4_field_names(ctx) -> None:
     r, prog = ctx.r, ctx.prog
     r.rule("C05.R4", "field names: escape positions are collected once as the union of pattern matches and quote-string matches on the *original* name and escaped in a single pass; the name is quoted per pattern (the template arguments are C05.R7)")
     f = prog.func(TQ + ".escape_and_quote_field")
-    src = unparse(f.node)
     loc = f.loc
-    if "match_positions = {match.start() for match in self.field_escape_pattern.finditer(field_name)}" in src and "match_positions.update((match.start() for match in re_quote.finditer(field_name)))" in src:
-        r.ok("C05.R4", f.qual, "positions = pattern matches ∪ quote matches, both on the original name", loc)
+    # escape_and_quote_field interpreted (sa.tabulate, Proxy: helper methods resolve from the source; `re` of the standard
+    # library is the only library) over backend configurations x field names
+    import re as _re
+    from itertools import pairwise as _pairwise
+    from ..tabulate import Proxy, call_method
+    env = {"re": _re, "pairwise": _pairwise}
+    IK = {"max_steps": 6000}
+
+    def run_cfg(name, cfg):
+        me = Proxy(prog, TQ, env, dict(cfg), interp_kwargs=IK)
+        try:
+            return call_method(prog, TQ, "escape_and_quote_field", me, env, name, interp_kwargs=IK)
+        except Raised as ex:
+            return f"<raises {ex}>"
+
+    def ref(name, cfg, self_escape):
+        esc, pat, eq, q = cfg["field_escape"], cfg["field_escape_pattern"], cfg["field_escape_quote"], cfg["field_quote"]
+        out = name
+        if esc is not None:
+            pos = {m.start() for m in pat.finditer(name)} if pat is not None else set()
+            if eq and q is not None:
+                pos |= {m.start() for m in _re.finditer(_re.escape(q), name)}
+            if self_escape:
+                pos |= {m.start() for m in _re.finditer(_re.escape(esc), name)}
+            out = "".join((esc if i_ in pos else "") + ch for i_, ch in enumerate(name))
+        if q is not None:
+            qp = cfg["field_quote_pattern"]
+            quote = True if qp is None else (bool(qp.match(out)) != bool(cfg["field_quote_pattern_negation"]))
+            if quote:
+                return q + out + q
+        return out
+
+    names = ["field", "field name", "a'b", "a\\'b", "''", "a b'c d", "", "x\\", "a\"b", "fie`ld", "f''g"]
+    wrong, n = [], 0
+    for esc in (None, "\\", "^"):
+        for pat in (None, _re.compile("\\s"), _re.compile("['\\s]"), _re.compile("[\\\\']")):
+            for eq in (True, False):
+                for q in (None, "'", "`", "''"):
+                    for qp, neg in ((None, True), (_re.compile("^\\w+$"), True), (_re.compile("^\\w+$"), False), (_re.compile(".*\\s"), False)):
+                        cfg = {"field_escape": esc, "field_escape_pattern": pat, "field_escape_quote": eq, "field_quote": q, "field_quote_pattern": qp, "field_quote_pattern_negation": neg}
+                        for name in names:
+                            n += 1
+                            got = run_cfg(name, cfg)
+                            if got not in (ref(name, cfg, False), ref(name, cfg, True)):
+                                wrong.append(f"field_escape={esc!r} pattern={pat.pattern if pat else None!r} escape_quote={eq} quote={q!r} quote_pattern={qp.pattern if qp else None!r} negation={neg}, name {name!r}: {got!r} instead of {ref(name, cfg, False)!r}")
+    if not wrong:
+        r.ok("C05.R4", f.qual, f"interpreted on {n} (configuration, field name) states: escape positions = pattern matches ∪ quote-string matches on the original name, escaped in one pass; quoted with field_quote on both sides per pattern and negation flag", loc)
     else:
-        r.violation("C05.R4", f.qual, "match_positions", "escape positions must be the union of pattern and quote-string matches on the original field name (a second pass over an already escaped name escapes twice: a quote that the pattern also matches decodes to backslash + bare quote)", loc)
-    if "indices = [0, *sorted(match_positions), len(field_name)]" in src and "self.field_escape.join((field_name[first_index:second_index] for first_index, second_index in pairwise(indices)))" in src:
-        r.ok("C05.R4", f.qual, "single pass: field_escape joined between the slices at the sorted positions", loc)
-    else:
-        r.violation("C05.R4", f.qual, "escaped_field_name = self.field_escape.join(...)", "escaping must be one pass over the sorted positions of the original name", loc)
-    extra = [c for c in walk_no_nested(f.node) if isinstance(c, ast.Call) and isinstance(c.func, ast.Attribute) and c.func.attr == "replace"]
-    for c in extra:
-        r.violation("C05.R4", f.qual, short(c, 100), "additional replace() pass over the field name", f"{f.module.relpath}:{c.lineno}")
-    if "re.compile(re.escape(self.field_quote))" in src and ("self.field_escape_quote and self.field_quote is not None" in src):
-        r.ok("C05.R4", f.qual, "quote string positions included iff field_escape_quote", loc)
-    else:
-        r.violation("C05.R4", f.qual, "re_quote", "quote string inside a field name is not escaped", loc)
-    if "return self.field_quote + escaped_field_name + self.field_quote" in src:
-        r.ok("C05.R4", f.qual, "quoted with field_quote on both sides", loc)
-    else:
-        r.violation("C05.R4", f.qual, "return self.field_quote + escaped_field_name + self.field_quote", "quoting altered", loc)
+        r.violation("C05.R4", f.qual, f"field name rendering: {wrong[0]}", f"{len(wrong)} of {n} interpreted states deviate: escape positions must be the union of pattern and quote-string matches on the original field name, escaped in a single pass (a second pass over an already escaped name escapes twice: a quote that the pattern also matches decodes to backslash + bare quote); the quote string inside a field name is escaped iff field_escape_quote; quoting per pattern", loc)
     # the escape string itself is not among the escaped positions
-    if "field_escape" in src and "re.escape(self.field_escape)" not in src:
+    cfg = {"field_escape": "\\", "field_escape_pattern": None, "field_escape_quote": True, "field_quote": "'", "field_quote_pattern": None, "field_quote_pattern_negation": True}
+    got = run_cfg("a\\'b", cfg)
+    if got == ref("a\\'b", cfg, True):
+        r.ok("C05.R4", f.qual, "occurrences of the escape string inside the field name are escaped themselves", loc)
+    else:
         r.violation("C05.R4", f.qual, "escape string not escaped",
                     "occurrences of the escape string inside the field name are not escaped themselves: the name a\\'b with field_escape='\\\\' renders as a\\\\'b, which decodes to a backslash followed by a bare (terminating) quote", loc)
-    r.floor("C05.R4", 5)
+    r.floor("C05.R4", 2)
     c01.r8_field_escaping(ctx, "C05.R7")
 
 
